@@ -193,9 +193,21 @@ def update_for_language(stmts, lang):
                 "fail",
         ]:
             specific = lang + "_" + clause
+            generic = "_generic_" + clause
             if specific in item:
                 # XXX - maybe make sure clause does not already exist.
+                if generic not in item:
+                    # Remember the language neutral value (may be missing)
+                    # so that a later library in another language
+                    # processed by the same Python process can restore it.
+                    item[generic] = item.get(clause)
                 item[clause] = item[specific]
+            elif generic in item:
+                # The clause was replaced for another language.
+                if item[generic] is None:
+                    item.pop(clause, None)
+                else:
+                    item[clause] = item[generic]
 
 
 def compute_stmt_permutations(out, parts):
